@@ -1615,6 +1615,13 @@ func (c *c15) nodesFile() {
 	path := filepath.Join(dir, "nodes.dat")
 	for i, n := 0, r.n(60, 1500); i < n; i++ {
 		l := c.nodes(6, false)
+		if i%12 == 5 {
+			// a table's worth and more: the reader must not stop at some size of its own
+			l = make([]krpc.NodeInfo, []int{160, 1279, 1280, 1281, 1400, 2600}[c.rn(6)])
+			for j := range l {
+				l[j] = krpc.NodeInfo{ID: c.id(), Addr: krpc.NodeAddr{IP: c.ip(6), Port: c.port()}}
+			}
+		}
 		var err error
 		pan := safely(func() { err = dht.WriteNodesToFile(l, path) })
 		rep := map[string]string{"nodes": dumpNodesNE(l)}
